@@ -4,7 +4,7 @@ CONSTANTS
   MaxClock = 0
   MaxIds = 4
   MaxStarts = 4
-  SeedSource = "entropy"
-  Acts = {"Fork", "Thread"}
+  SeedSource = "per_thread"
+  Acts = {"Thread"}
 INVARIANT IdsUnique
 CHECK_DEADLOCK FALSE
